@@ -36,7 +36,12 @@ def ensure_tv(ctx, ops, pool=None):
     if not ops:
         return
     prog = get_prog(ctx)
-    tv.validate(ctx, prog, ops, pool=pool)
+    tv._PROG = prog
+    if pool is None and not multiprocessing.current_process().daemon:
+        with multiprocessing.get_context("fork").Pool(min(16, os.cpu_count() or 1)) as p2:
+            tv.validate(ctx, prog, ops, pool=p2)
+    else:
+        tv.validate(ctx, prog, ops, pool=pool)
     _TV_DONE.update(ops)
 
 
@@ -116,10 +121,13 @@ def run_parallel(ctx, jobs, tv_ops, procs=None):
     tv._PROG = get_prog(ctx)          # before the fork: workers inherit the lifted program
     procs = procs or min(16, os.cpu_count() or 1)
     mp = multiprocessing.get_context("fork")
+    if [o for o in tv_ops if o not in _TV_DONE]:
+        with mp.Pool(procs) as pool:
+            ensure_tv(ctx, tv_ops, pool=pool)
+    # forked after the validation so that the workers inherit "translator validated" as well
     with mp.Pool(procs) as pool:
-        ensure_tv(ctx, tv_ops, pool=pool)
         args = [(ctx.prop, ctx.tier, ctx.seed, f, a) for f, a in jobs]
-        for d in pool.imap_unordered(_job, args):
+        for d in pool.imap_unordered(_job, args, chunksize=1):
             merge(ctx, d)
 
 
@@ -130,6 +138,9 @@ class LemmaRun:
     def __init__(self, ctx, name, bound=None):
         self.ctx, self.name, self.bound = ctx, name, bound
         self.prog = get_prog(ctx)
+        if not os.environ.get("VERIF_SKIP_TV"):
+            # no verdict without a validated translator (DESIGN §3.1); a no-op when run_parallel has done it already
+            ensure_tv(ctx, tv.STRING_OPS if name.startswith("S") else tv.STAGE1_OPS)
         self.ex = x86.Executor(self.prog, timeout_ms=60000 if ctx.tier == "quick" else 600000)
         self.paths = 0
         self.t0 = time.time()
@@ -1246,8 +1257,10 @@ def A8(ctx, parts=None, cases=None):
 # ---------------------------------------------------------------------------------------------------------------
 # A9 (thorough): inlined single-block step vs monolithic REF-SCAN
 
-def A9(ctx, family="avx2", timeout_s=600):
+def A9(ctx, family=None, timeout_s=600):
     """_find_structural_bits[_avx512] with all four callees inlined, against the direct per-position recurrence"""
+    if family is None:
+        return [A9(ctx, f, timeout_s) for f in FAMILIES]
     L = LemmaRun(ctx, "A9(%s)" % family, bound="one 64-byte block, any carry-in, monolithic (no cut points); solver limit %ds" % timeout_s)
     ex, prog = L.ex, L.prog
     ex.timeout_ms = timeout_s * 1000
@@ -1383,11 +1396,13 @@ def _class_loop(L, ctx, f, claim, hyp, SR, excl, op, replay_hyp):
             return True
         # a replayable instance: first iteration of a call (cursor = src, nothing decoded yet); preferably with only
         # plain bytes / a closing quote after the escape so that the rest of the string cannot mask the difference
-        benign = [z3.Implies(z3.UGE(BV(j, 64), SR.ev + 12), z3.Or(SR.W[j] == 0x78, SR.W[j] == 0x22)) for j in range(WIN)]
+        def benign(cut):
+            return [z3.Implies(z3.UGE(BV(j, 64), SR.ev + cut), z3.Or(SR.W[j] == 0x78, SR.W[j] == 0x22)) for j in range(WIN)]
         base = hyp + [z3.Not(x) for x in excl.values()] + replay_hyp
         w = None
         tried = []
-        for extra in (benign + [SR.ev == 0], benign, []):
+        attempts = [benign(c) + e0 for c in (6, 12, 2) for e0 in ([SR.ev == 0], [])] + [[]]
+        for extra in attempts:
             m2 = L.refute(f, claim, base + extra)
             if m2 is None:
                 continue
